@@ -28,14 +28,17 @@ def cache_discipline(px):
             cache_attr = n.attr
     if cache_attr is None:
         return True, "no cache"
+    # the cache under a local alias (`cache = self._..._cache`) is the same object
+    cache_names = {f"self.{cache_attr}"} | {t.id for n in ast.walk(f.node) if isinstance(n, ast.Assign) and ast.unparse(n.value) == f"self.{cache_attr}"
+                                             for t in n.targets if isinstance(t, ast.Name)}
     popped = {t.id for n in ast.walk(f.node) if isinstance(n, ast.Assign) and isinstance(n.value, ast.Call) and getattr(n.value.func, "attr", "") in ("pop", "popleft")
               for t in n.targets if isinstance(t, ast.Name)}
     tparam = f.node.args.args[2].arg if len(f.node.args.args) > 2 else "templates"
     writes = []   # (key expr, value expr, node)
     for n in ast.walk(f.node):
-        if isinstance(n, ast.Assign) and isinstance(n.targets[0], ast.Subscript) and ast.unparse(n.targets[0].value) == f"self.{cache_attr}":
+        if isinstance(n, ast.Assign) and isinstance(n.targets[0], ast.Subscript) and ast.unparse(n.targets[0].value) in cache_names:
             writes.append((n.targets[0].slice, n.value, n))
-        if isinstance(n, ast.Call) and isinstance(n.func, ast.Attribute) and ast.unparse(n.func.value) == f"self.{cache_attr}":
+        if isinstance(n, ast.Call) and isinstance(n.func, ast.Attribute) and ast.unparse(n.func.value) in cache_names:
             if n.func.attr in ("setdefault", "__setitem__") and len(n.args) == 2:
                 writes.append((n.args[0], n.args[1], n))
             elif n.func.attr in ("update", "clear", "pop", "popitem"):
@@ -48,7 +51,7 @@ def cache_discipline(px):
         if isinstance(val, ast.Name):
             cands = [n.value for n in ast.walk(f.node) if isinstance(n, ast.Assign) and any(isinstance(t, ast.Name) and t.id == val.id for t in n.targets)
                      and not (isinstance(n.value, ast.Constant) and n.value.value is None)
-                     and not (isinstance(n.value, ast.Subscript) and ast.unparse(n.value.value) == f"self.{cache_attr}")]
+                     and not (isinstance(n.value, ast.Subscript) and ast.unparse(n.value.value) in cache_names)]
         good = False
         for c in cands:
             if isinstance(c, ast.Subscript) and isinstance(c.value, ast.Name) and c.value.id == tparam:
@@ -84,23 +87,35 @@ def rule_precedence(ctx, px):
                 and "_package_loader" in ast.unparse(c.func.value)]
     if not fs_calls or not pk_calls:
         raise AnalysisError("anchor missing: loader get_source calls in DSDLTemplateLoader.get_source")
-    for c in pk_calls:
-        # every package-loader call must be dominated by the fs attempt: a preceding `if self._fsloader is not None: try: return fs...`
-        pm = pyfront.parent_map(gs.node)
-        st = pyfront.enclosing_stmt(c, pm)
-        dom = pyfront.dominating_stmts(gs.node, st) or []
-        fs_before = False
-        for d in dom:
-            if isinstance(d, ast.If) and "_fsloader" in ast.unparse(d.test):
-                # the fs branch returns on success
-                rets = [r for r in ast.walk(d) if isinstance(r, ast.Return) and "_fsloader" in ast.unparse(r)]
-                if rets:
-                    fs_before = True
-        gd = pyfront.guards_of(gs.node, c) or ()
-        in_fs_handler = any("_fsloader" in e for e, p in pyfront.guard_terms(gd))
-        ok = fs_before or in_fs_handler
-        ctx.ob(R, gs.module.rel, f"{gs.short} :: package loader consulted only after the file-system loader", ok,
-               "" if ok else "a built-in template can be returned although a user template of the same name exists", c.lineno)
+    # Path by path: the package loader is reached only where the file-system loader does not exist, or where the file-system loader's
+    # *own* lookup has just failed (the handler of the try around its get_source).  Any other evidence of absence - a cached listing,
+    # a suffix test, an exists() probe - is not the authority: the FileSystemLoader resolves names the listing does not contain
+    # (non-template suffixes, un-normalised names, files created later), and those user files would no longer shadow the built-ins.
+    fs_tries = [t_ for t_ in ast.walk(gs.node) if isinstance(t_, ast.Try) and any(c in fs_calls for b_ in t_.body for c in ast.walk(b_))]
+    not_found = {"TemplateNotFound", "TemplatesNotFound", "LookupError", "IOError", "OSError", "TemplateError", "Exception", "BaseException"}
+    handler_terms = set()
+    for t_ in fs_tries:
+        for h in t_.handlers:
+            names = [ast.unparse(x).split(".")[-1] for x in (h.type.elts if isinstance(h.type, ast.Tuple) else [h.type])] if h.type is not None else ["BaseException"]
+            if "TemplateNotFound" in names or set(names) & (not_found - {"TemplatesNotFound"}):
+                handler_terms.add("except " + (ast.unparse(h.type) if h.type is not None else "BaseException"))
+    n_pk = 0
+    for path in pyfront.enumerate_paths(gs.node.body):
+        last = path.stmts[-1] if path.stmts else None
+        if path.outcome != "return" or last is None or not any(c in pk_calls for c in ast.walk(last)):
+            continue
+        n_pk += 1
+        terms = path.terms()
+        absent = any((e in ("self._fsloader is not None", "self._fsloader") and not pol) or (e in ("self._fsloader is None", "not self._fsloader") and pol)
+                     for e, pol in terms)
+        failed = any(pol and e in handler_terms for e, pol in terms)
+        ok = absent or failed
+        ctx.ob(R, gs.module.rel, f"{gs.short} :: package loader consulted only after the file-system loader"
+               + (" is absent" if absent else " failed to find the name" if failed else f" [{'; '.join(('' if pl else 'not ') + e[:60] for e, pl in terms)}]"), ok,
+               "" if ok else "the package loader is reached on a path where a file-system loader exists and its own get_source has not failed for this "
+               "name: a built-in template can be returned although a user file of the same name exists", last.lineno)
+    if n_pk == 0:
+        raise AnalysisError("anchor missing: no returning path through the package loader in DSDLTemplateLoader.get_source")
     # the fs success path returns immediately (no fall through to the package loader)
     for c in fs_calls:
         pm = pyfront.parent_map(gs.node)
@@ -170,19 +185,30 @@ def rule_precedence(ctx, px):
     it = px.func(LOADERS, "DSDLTemplateLoader._type_to_template_internal")
     src = ast.unparse(it.node)
     # queue discipline
+    # the search queue: the local(s) bound to a deque
+    qinit = [n for n in ast.walk(it.node) if isinstance(n, (ast.Assign, ast.AnnAssign)) and isinstance(n.value, ast.Call)
+             and ast.unparse(n.value.func) in ("collections.deque", "deque")]
+    qnames = {t.id for n in qinit for t in (n.targets if isinstance(n, ast.Assign) else [n.target]) if isinstance(t, ast.Name)}
     enq = [c for c in ast.walk(it.node) if isinstance(c, ast.Call) and isinstance(c.func, ast.Attribute) and c.func.attr in ("appendleft", "append")
-           and "queue" in ast.unparse(c.func.value)]
+           and ast.unparse(c.func.value) in qnames]
     deq = [c for c in ast.walk(it.node) if isinstance(c, ast.Call) and isinstance(c.func, ast.Attribute) and c.func.attr in ("pop", "popleft")
-           and "queue" in ast.unparse(c.func.value)]
+           and ast.unparse(c.func.value) in qnames]
     if not enq or not deq:
         raise AnalysisError("anchor missing: search queue in _type_to_template_internal")
     kinds = {c.func.attr for c in enq}, {c.func.attr for c in deq}
     fifo = kinds in (({"appendleft"}, {"pop"}), ({"append"}, {"popleft"}))
     ctx.ob(R, it.module.rel, f"{it.short} :: breadth-first (FIFO) ancestor search", fifo,
            "" if fifo else f"queue discipline {kinds}: a farther ancestor's template can win over a nearer one", it.node.lineno)
-    first = min(enq, key=lambda c: c.lineno)
-    ok = ast.unparse(first.args[0]) == it.node.args.args[1].arg
-    ctx.ob(R, it.module.rel, f"{it.short} :: search starts at the class itself", ok, "", first.lineno)
+    # the first element: the deque's initial content (`deque([value_type])`) or, with an empty deque, the first enqueue
+    seeded = [n.value.args[0] for n in qinit if n.value.args]
+    if seeded:
+        ok = all(isinstance(a_, (ast.List, ast.Tuple)) and [ast.unparse(e) for e in a_.elts] == [it.node.args.args[1].arg] for a_ in seeded)
+        first_line = qinit[0].lineno
+    else:
+        first = min(enq, key=lambda c: c.lineno)
+        ok = ast.unparse(first.args[0]) == it.node.args.args[1].arg
+        first_line = first.lineno
+    ctx.ob(R, it.module.rel, f"{it.short} :: search starts at the class itself", ok, "", first_line)
     loops = [n for n in ast.walk(it.node) if isinstance(n, ast.For) and "__bases__" in ast.unparse(n.iter)]
     ok = len(loops) == 1 and ast.unparse(loops[0].iter).endswith(".__bases__")
     ctx.ob(R, it.module.rel, f"{it.short} :: enqueues the direct bases of the class that had no template", ok, "", it.node.lineno)
@@ -267,7 +293,7 @@ def rule_guard(ctx, px):
     if len(aps) < 3:
         raise AnalysisError("anchor changed: _add_to_environment(name, item, collection)")
     a_name, a_item, a_coll = aps[0], aps[1], aps[2]
-    ok = any((f"{a_name} in {a_coll}", True) in t and ("self._allow_replacements", False) in t for t in raises)
+    ok = any(((f"{a_name} in {a_coll}", True) in t or (f"{a_name} not in {a_coll}", False) in t) and ("self._allow_replacements", False) in t for t in raises)
     ctx.ob(R, a.module.rel, f"{a.short} :: raises when the name exists and replacement was not requested", ok,
            "" if ok else f"raise conditions: {raises}", a.node.lineno)
     stores = []
@@ -293,7 +319,52 @@ def rule_guard(ctx, px):
 
     # --- globals -----------------------------------------------------------------------------------------------
     user_stores = []
-    uloops = [n for n in ast.walk(init.node) if isinstance(n, ast.For) and "additional_globals" in {x.id for x in ast.walk(n.iter) if isinstance(x, ast.Name)}]
+    ug = next((a_.arg for a_ in init.node.args.args + init.node.args.kwonlyargs if a_.arg == "additional_globals"), None)
+    if ug is None:
+        raise AnalysisError("anchor missing: the additional_globals parameter of CodeGenEnvironment.__init__")
+    uloops = [n for n in ast.walk(init.node) if isinstance(n, ast.For) and ug in {x.id for x in ast.walk(n.iter) if isinstance(x, ast.Name)}]
+    bulk = [c for c in ast.walk(init.node) if isinstance(c, ast.Call) and ast.unparse(c.func) == "self.globals.update"
+            and ug in {x.id for a_ in list(c.args) + [k.value for k in c.keywords] for x in ast.walk(a_) if isinstance(x, ast.Name)}]
+    if bulk:
+        # wholesale insertion: sound only when a raising membership test over the same mapping runs before it and nothing that
+        # installs globals runs in between (what is installed after the test is overwritten silently by the update)
+        pm_ = pyfront.parent_map(init.node)
+        for c in bulk:
+            top_c = pyfront.enclosing_stmt(c, pm_)
+            while pm_.get(id(top_c)) is not init.node:
+                top_c = pm_[id(top_c)]
+            idx_c = init.node.body.index(top_c)
+            chk_idx = None
+            for lp in uloops:
+                tnames = {x.id for x in ast.walk(lp.target) if isinstance(x, ast.Name)}
+                tests = [i_ for i_ in ast.walk(lp) if isinstance(i_, ast.If) and any(isinstance(r, ast.Raise) for r in i_.body)
+                         and any(ast.unparse(i_.test) == f"{tn} in self.globals" for tn in tnames)]
+                if tests:
+                    top_l = lp
+                    while pm_.get(id(top_l)) is not init.node:
+                        top_l = pm_[id(top_l)]
+                    chk_idx = init.node.body.index(top_l)
+            between = init.node.body[chk_idx + 1: idx_c] if chk_idx is not None and chk_idx <= idx_c else []
+            if chk_idx is not None and chk_idx == idx_c:
+                between = []
+            installers = []
+            for st in between:
+                for x in ast.walk(st):
+                    if isinstance(x, ast.Call) and isinstance(x.func, ast.Attribute) and ast.unparse(x.func).startswith("self.") and not ast.unparse(x.func).startswith("self._target_language"):
+                        installers.append(f"{ast.unparse(x.func)} (line {x.lineno})")
+                    if isinstance(x, ast.Assign) and ast.unparse(x.targets[0]).startswith("self.globals"):
+                        installers.append(f"{ast.unparse(x.targets[0])} (line {x.lineno})")
+            ok = chk_idx is not None and chk_idx <= idx_c and not installers and all(lp.lineno < c.lineno for lp in uloops)
+            ctx.ob(R, init.module.rel, f"{init.short} :: user globals inserted wholesale only straight after a raising membership test over all of them", ok,
+                   "" if ok else ("no raising `name in self.globals` test over the user globals runs before self.globals.update(<user globals>)" if chk_idx is None or chk_idx > idx_c else
+                                  f"the names are tested before {installers[:4]} run and inserted afterwards: a user global named like a global installed in between "
+                                  "(the target language's globals) silently replaces it"), c.lineno)
+    bulk_only = bool(bulk) and not any(isinstance(lp.target, ast.Tuple) for lp in uloops)
+    if bulk_only:
+        ust = pyfront.enclosing_stmt(bulk[-1], pyfront.parent_map(init.node))
+        pm = pyfront.parent_map(init.node)
+        _globals_tail(ctx, px, R, init, ust, pm)
+        return
     if len(uloops) != 1 or not isinstance(uloops[0].target, ast.Tuple) or len(uloops[0].target.elts) != 2:
         raise AnalysisError("anchor missing: loop over additional_globals.items() in CodeGenEnvironment.__init__")
     g_name, g_value = (e.id for e in uloops[0].target.elts)
@@ -329,6 +400,10 @@ def rule_guard(ctx, px):
                 inst_now = any(isinstance(x, ast.Assign) and ast.unparse(x.targets[0]) in ("self.globals['now_utc']",) for x in dom)
                 reserved = inst_ns and inst_now
     ctx.ob(R, init.module.rel, f"{init.short} :: reserved namespaces/names are refused unconditionally", reserved, "", ust.lineno)
+    _globals_tail(ctx, px, R, init, ust, pm)
+
+
+def _globals_tail(ctx, px, R, init, ust, pm):
     # (ii) nothing after the insertion overwrites globals wholesale
     top = ust
     while pm.get(id(top)) is not init.node:
@@ -362,17 +437,35 @@ def rule_tests(ctx, px):
     )
     f = px.func(GEN, "DSDLCodeGenerator._create_instance_tests_for_type")
     root = f.node.args.args[1].arg
+    # the predicate: a closure over the class defined here, or made by a private factory that is handed the class
+    # (`test = cls._make_test(root)`, where the factory returns its nested function)
     inner = [n for n in f.node.body if isinstance(n, ast.FunctionDef)]
-    if len(inner) != 1:
-        raise AnalysisError("anchor missing: predicate closure in _create_instance_tests_for_type")
-    pred = inner[0]
+    pred_names = set()      # spellings of the predicate in f
+    pred_cls = root         # how the predicate spells the class
+    if len(inner) == 1:
+        pred = inner[0]
+        pred_names = {pred.name}
+    else:
+        pred = None
+        for st in f.node.body:
+            if isinstance(st, ast.Assign) and isinstance(st.value, ast.Call) and len(st.targets) == 1 and isinstance(st.targets[0], ast.Name) \
+                    and [ast.unparse(a_) for a_ in st.value.args] == [root] and not st.value.keywords:
+                for h in px.resolve_call(f, st.value, by_name_fallback=False):
+                    nested = [n for n in h.node.body if isinstance(n, ast.FunctionDef)]
+                    hp = [a_.arg for a_ in h.node.args.args if a_.arg not in ("self", "cls")]
+                    rets_h = [r for r in ast.walk(h.node) if isinstance(r, ast.Return) and r.value is not None and not any(r in ast.walk(n_) for n_ in nested)]
+                    if len(nested) == 1 and len(hp) == 1 and rets_h and all(isinstance(r.value, ast.Name) and r.value.id == nested[0].name for r in rets_h):
+                        pred, pred_cls = nested[0], hp[0]
+                        pred_names = {st.targets[0].id}
+        if pred is None:
+            raise AnalysisError("anchor missing: predicate closure in _create_instance_tests_for_type")
     p = pred.args.args[0].arg
     rets = []
     for st, gd in pyfront.walk_guarded(pred.body):
         if isinstance(st, ast.Return):
             rets.append((ast.unparse(st.value), pyfront.guard_terms(gd)))
-    want_attr = (f"isinstance({p}.data_type, {root})", [(f"isinstance({p}, pydsdl.Attribute)", True)])
-    want_val = (f"isinstance({p}, {root})", [(f"isinstance({p}, pydsdl.Attribute)", False)])
+    want_attr = (f"isinstance({p}.data_type, {pred_cls})", [(f"isinstance({p}, pydsdl.Attribute)", True)])
+    want_val = (f"isinstance({p}, {pred_cls})", [(f"isinstance({p}, pydsdl.Attribute)", False)])
     ok = want_attr in rets and want_val in rets and len(rets) == 2
     ctx.ob(R, f.module.rel, f"{f.short} :: predicate = isinstance(value or attribute.data_type, class)", ok,
            "" if ok else f"predicate returns {rets}", pred.lineno)
@@ -380,21 +473,26 @@ def rule_tests(ctx, px):
     if len(rnames) != 1:
         raise AnalysisError("anchor changed: _create_instance_tests_for_type no longer returns one local mapping")
     tdict = next(iter(rnames))
-    stores = [s for s in ast.walk(f.node) if isinstance(s, ast.Assign) and ast.unparse(s.targets[0]).startswith(f"{tdict}[")]
-    ok = bool(stores) and all(ast.unparse(s.value) == pred.name for s in stores)
+    # entries: `tests[k] = v` stores and the items of a dict display the mapping starts from; (key node, value node)
+    entries = [(s_.targets[0].slice, s_.value) for s_ in ast.walk(f.node) if isinstance(s_, ast.Assign) and ast.unparse(s_.targets[0]).startswith(f"{tdict}[")]
+    for s_ in ast.walk(f.node):
+        if isinstance(s_, (ast.Assign, ast.AnnAssign)) and isinstance(s_.value, ast.Dict) and \
+                any(isinstance(t_, ast.Name) and t_.id == tdict for t_ in (s_.targets if isinstance(s_, ast.Assign) else [s_.target])):
+            entries += [(k_, v_) for k_, v_ in zip(s_.value.keys, s_.value.values) if k_ is not None]
+    ok = bool(entries) and all(ast.unparse(v_) in pred_names for _, v_ in entries)
     ctx.ob(R, f.module.rel, f"{f.short} :: name and alias are bound to the same predicate", ok, "", f.node.lineno)
-    keys = [ast.unparse(s.targets[0].slice) for s in stores]
+    keys = [ast.unparse(k_) for k_, _ in entries]
     ok = f"{root}.__name__" in keys
     ctx.ob(R, f.module.rel, f"{f.short} :: test named exactly like the class", ok, f"keys: {keys}", f.node.lineno)
     # the alias: lower-cased class name, shortened by a known suffix only when something is left over.  The computation may be
     # inline or in a private helper that receives the class name.
     alias_fn, alias_src = f, None
-    for s_ in stores:
-        k = s_.targets[0].slice
+    for k, _v in entries:
         if isinstance(k, ast.Call) and isinstance(k.func, ast.Attribute) and isinstance(k.func.value, ast.Name) and k.func.value.id in ("cls", "self") \
                 and f.cls is not None and k.func.attr in f.cls.methods and k.args and ast.unparse(k.args[0]) == f"{root}.__name__":
             alias_fn = f.cls.methods[k.func.attr]
-            alias_src = alias_fn.node.args.args[1].arg if len(alias_fn.node.args.args) > 1 else None
+            own = [a_.arg for a_ in alias_fn.node.args.args if a_.arg not in ("self", "cls")]
+            alias_src = own[0] if own else None
     lowered = set()
     for n in ast.walk(alias_fn.node):
         if isinstance(n, ast.Assign) and isinstance(n.targets[0], ast.Name) and isinstance(n.value, ast.Call) and isinstance(n.value.func, ast.Attribute) \
@@ -442,7 +540,7 @@ def rule_tests(ctx, px):
     ctx.ob(R, alias_fn.module.rel, f"{alias_fn.short} :: the alias drops a Type/Field suffix", n_cut >= 1, "", alias_fn.node.lineno)
     # the uncut lower-case name is the alias otherwise
     if alias_fn is f:
-        whole = any(ast.unparse(s_.targets[0].slice) in lowered for s_ in stores)
+        whole = any(ast.unparse(k_) in lowered for k_, _ in entries)
     else:
         whole = any(isinstance(r, ast.Return) and isinstance(r.value, ast.Name) and r.value.id in lowered for r in ast.walk(alias_fn.node))
     ctx.ob(R, alias_fn.module.rel, f"{alias_fn.short} :: a name without a known suffix is its own (lower-case) alias", whole, "", alias_fn.node.lineno)
